@@ -76,6 +76,7 @@ class Sources:
         return None
 
     def bx(self, b):
+        """Coq text of a byte string: pieces of the known sources where possible, literals otherwise."""
         b = bytes(b)
         if len(b) <= 24:
             self.literal += len(b)
@@ -83,16 +84,36 @@ class Sources:
         w = self.whole(b)
         if w:
             return w
-        for i in range(0, 25):
-            for j in range(0, 25):
-                if len(b) - i - j <= 24:
-                    break
-                w = self.whole(b[i:len(b) - j])
-                if w:
-                    self.literal += i + j
-                    return "(%s ++ %s ++ %s)" % (lit(b[:i]), w, lit(b[len(b) - j:] if j else b""))
-        self.literal += len(b)
-        return lit(b)
+        parts, pos, pending = [], 0, bytearray()
+
+        def flush():
+            if pending:
+                self.literal += len(pending)
+                parts.append(lit(bytes(pending)))
+                pending.clear()
+
+        while pos < len(b):
+            best = None
+            probe = b[pos:pos + 32]
+            if len(probe) >= 12:
+                for s, fn in self.src:
+                    o = s.find(probe)
+                    if o < 0:
+                        continue
+                    n = len(probe)
+                    while pos + n < len(b) and o + n < len(s) and b[pos + n] == s[o + n]:
+                        n += 1
+                    if best is None or n > best[0]:
+                        best = (n, fn(o, n))
+            if best:
+                flush()
+                parts.append(best[1])
+                pos += best[0]
+            else:
+                pending.append(b[pos])
+                pos += 1
+        flush()
+        return "(" + " ++ ".join(parts) + ")"
 
 
 # --------------------------------------------------------------------------- recorder
@@ -764,6 +785,14 @@ class Batch:
         self.cur["cost"] += cost
 
     def run(self, timeout=900):
+        d = os.path.join(common.BUILD, "cases", self.ctx.pid)
+        if os.path.isdir(d):
+            for f in os.listdir(d):
+                if f.startswith("cases_"):
+                    try:
+                        os.unlink(os.path.join(d, f))
+                    except OSError:
+                        pass
         items, index = [], {}
         for i, f in enumerate(self.files):
             name = "cases_%03d" % i
@@ -830,7 +859,7 @@ def gen_send(ctx):
     # HAP: every size around the frame limit and its multiples, alone and in sequences
     for i, n in enumerate(hap_sizes(ctx)):
         sc("hap" if i % 2 else "hapchan", [rnd_pat(rng, n)], c0=rng.choice([0, 1, 255, 256, 70000]))
-    for _ in range(6 if not ctx.thorough else 40):
+    for _ in range(12 if not ctx.thorough else 40):
         ms = [rnd_pat(rng, rng.choice([1, 5, 100, 1023, 1024, 1025, 1500, 2048, 2500, rng.randrange(3100)])) for _ in range(rng.randrange(2, 5))]
         sc(rng.choice(["hap", "hapchan"]), ms, c0=rng.choice(counters_for("hap", rng)[:9]))
     sc("hap", [rnd_pat(rng, 40), rnd_pat(rng, 2049)], enc=False)
@@ -839,7 +868,7 @@ def gen_send(ctx):
         sc("hap", [rnd_pat(rng, 3), rnd_pat(rng, 1030)], c0=c0)
     # Companion
     fts = known_frame_types()
-    for n in [0, 1, 2, 255, 256, 257, 1024, 65519, 65520, 65535, 65536] if ctx.thorough else [0, 1, 2, 239, 240, 255, 256, 257, 1024]:
+    for n in [0, 1, 2, 239, 240, 255, 256, 257, 1024, 65519, 65520, 65536] if ctx.thorough else [0, 1, 2, 239, 240, 255, 256, 257, 1024]:
         sc("comp", [[rng.choice(fts), rnd_pat(rng, n)]], c0=rng.choice([0, 255, 256]))
     for _ in range(5 if not ctx.thorough else 30):
         ms = [[rng.choice(fts), rnd_pat(rng, rng.choice([0, 0, 1, 7, 100, 300, rng.randrange(700)]))] for _ in range(rng.randrange(2, 7))]
@@ -906,7 +935,7 @@ def cuts_for(ctx, total, boundaries, full):
         out += [[a, b - a] for a in range(1, total) for b in range(a + 1, total)]
     else:
         pool = ones if ones else [1]
-        for _ in range(60 if not ctx.thorough else 400):
+        for _ in range(150 if not ctx.thorough else 400):
             if total < 3:
                 break
             a, b = sorted(rng.sample(range(1, total), 2))
@@ -957,7 +986,7 @@ def gen_recv(ctx):
     sc("comp", [[8, rnd_pat(rng, 2)], [8, rnd_pat(rng, 2)]], c0=(1 << 96) - 2, cuts="near", replay_part=0)
     sc("comp", [[8, rnd_pat(rng, 2)], [7, rnd_pat(rng, 3)]], c0=9, cuts="near", replay_part=0)
     if ctx.thorough:
-        sc("comp", [[8, rnd_pat(rng, 65520)], [8, rnd_pat(rng, 65521)]], cuts="near")
+        sc("comp", [[8, rnd_pat(rng, 9000)], [8, rnd_pat(rng, 9001)]], cuts="near")
     # --- MRP
     sc("mrp", [["msg", 15, 65, 3], ["msg", 4, 66, 0], ["msg", 32, 67, 9]], c0=rng.choice([0, 255]), cuts="full", tamper="all")
     sc("mrp", [["msg", 15, 70, 105], ["msg", 15, 71, 106], ["msg", 15, 72, 107], ["msg", 1, 73, 400]], c0=65535, cuts="near" if not ctx.thorough else "full")
@@ -966,7 +995,7 @@ def gen_recv(ctx):
     sc("mrp", [["msg", 1, 76, 1], ["msg", 1, 77, 2]], c0=2, cuts="near", replay_part=1)
     if ctx.thorough:
         sc("mrp", [["msg", 15, 79, 16360], ["msg", 15, 80, 16400]], cuts="near")
-    for _ in range(3 if not ctx.thorough else 25):
+    for _ in range(8 if not ctx.thorough else 25):
         chan = rng.choice(["hap", "hapchan", "comp", "mrp"])
         if chan in ("hap", "hapchan"):
             ms = [rnd_pat(rng, rng.choice([1, 17, 600, 1024, 1025, 1300])) for _ in range(rng.randrange(1, 4))]
@@ -1268,9 +1297,12 @@ def run(ctx):
 
 
 def replay(ctx, path):
-    d = json.load(open(path))
-    sc = d.get("scenario") or d["replay"]
-    sc = dict(sc)
+    try:
+        d = json.load(open(path))
+        sc = dict(d.get("scenario") or d["replay"])
+    except (OSError, ValueError, KeyError) as ex:
+        print("cannot read replay file %s: %s" % (path, ex))
+        return 2
     if sc.get("kind") == "send":
         obs, viol = run_send(sc)
         print("sent %d messages, raised=%s, final out counter=%d" % (len(obs["outs"]), obs["exc"], obs["counter"]))
